@@ -136,4 +136,26 @@ PROPS['C02'] = {
     'level_note': 'sampled expression shapes; lazy inverses restricted to small SPD operands',
 }
 
+PROPS['C12'] = {
+    'modes': [(0, 6, 'index'), (0, 2, 'pack'), (1, 6, 'index'), (1, 2, 'pack')],
+    'budget': {'quick': 60, 'thorough': 400},
+    'deciding': {'C12.mv': (1500, 15000), 'C12.construct': (2000, 20000), 'C12.transpose': (1000, 10000),
+                 'C12.products': (800, 8000)},
+    'require_hist': {'quick': {'C12.construct.how': ['with', 'without'], 'C12.ptp.result': ['DiagonalOperator'],
+                               'C12.ppt.result': ['IdentityOperator'], 'C12.ppt.duplicates': ['True', 'False']},
+                     'thorough': {'C12.construct.how': ['with', 'without'], 'C12.ptp.result': ['DiagonalOperator'],
+                                  'C12.ppt.result': ['IdentityOperator'], 'C12.ppt.duplicates': ['True', 'False']}},
+    'rule': 'cases = in-bounds index expressions mixing ints (negative too), slices (any start/stop/step), an ellipsis at any '
+            'position, integer arrays of rank 1-2 (negative and repeated entries, int16/int32), boolean masks, on leaves of rank '
+            '1-3 and on list/dict/tuple/Stokes pytrees; built with and without out_structure; every mv observed is compared with '
+            'numpy x[indices], P.T.mv with np.add.at into zeros, (P.T@P).reduce() and (P@P.T).reduce() with the reference products '
+            '(identity only when duplicate-free); pack operators likewise with leaf[mask]. case key = (index form per axis, leaf '
+            'rank, structure kind); non-trivial = contains an array, a mask or a negative entry',
+    'assumptions': COMMON_ASSUMPTIONS + ['unique_indices=True is only passed for arrays that are duplicate-free (a broken precondition is never generated)',
+                                         'at most one group of broadcast-compatible advanced indices per expression'],
+    'technique': 'runtime reference-model monitor on IndexOperator.mv / PackOperator.mv (NumPy indexing), scatter-add and product oracles',
+    'level_text': 'exploration: thousands of index forms x structures; every observed mv equals NumPy indexing, transposes equal np.add.at, reductions equal the reference products.',
+    'level_note': 'index arrays in bounds; sizes small (<= 4 per axis)',
+}
+
 NOT_APPLICABLE: dict[str, str] = {}
